@@ -178,6 +178,7 @@ def _variant_accepts(ev):       # an encoding the real code rejected, presented 
 
 PLAN = dict(
     id="C08",
+    keep_work=True,
     level="fault_enumeration",
     build=["c08"],
     mc=[dict(module="MC_Untrusted", cfg_quick="MC_Untrusted_quick.cfg", cfg_thorough="MC_Untrusted.cfg", workers=4,
